@@ -53,9 +53,13 @@ def jsonable(x):
         import numpy as np
     except Exception:  # pragma: no cover
         np = None
-    if x is None or isinstance(x, (bool, int, str)):
+    if x is None or isinstance(x, (bool, str)):
         return x
+    if isinstance(x, int):
+        return int(x)
     if isinstance(x, float):
+        if type(x) is not float:
+            x = float.__float__(x)      # a float subclass (DECAngle) with its own __eq__ must not reach the JSON encoder
         if math.isnan(x) or math.isinf(x):
             return {'__float__': repr(x)}
         return x
